@@ -226,7 +226,8 @@ class JointDistribution:
         if isinstance(density, EvaluatedDensity):
             raise ValueError("Cannot add the sum of all evaluated densities to an EvaluatedDensity.")
 
-        density._constant += self._sum_evaluated_densities()
+        # Not in-place: _constant may be an array shared with the density this one was (shallow) copied from
+        density._constant = density._constant + self._sum_evaluated_densities()
         return density
 
     def _as_stacked(self) -> _StackedJointDistribution:
